@@ -87,6 +87,40 @@ func TestC19(t *testing.T) {
 		})
 	})
 	t.Run("histories", testC19Histories)
+	t.Run("big-roundtrip", func(t *testing.T) {
+		// a collection of more than a thousand documents is exported, dropped and imported again
+		// under its own, now free name (and under a second one): the import must succeed and
+		// reproduce it, which it cannot if the drop left anything behind
+		col := collector("C19", ruleC19)
+		check(t, "C19", cases(16, 400), 0, func(rt *rapid.T) {
+			backend := rapid.SampledFrom([]string{run.Bbolt, run.Bbolt, run.BadgerMem}).Draw(rt, "backend")
+			s, err := c19Session(backend)
+			if err != nil {
+				rt.Fatalf("open: %v", err)
+			}
+			defer s.Close()
+			do := func(op cs.Op) {
+				if f := s.Do(op); f != nil {
+					violate(rt, "C19", "c19", s.Program(f), f)
+				}
+			}
+			n := rapid.SampledFrom([]int{1025, 1100, 2100, 2500, 3100}).Draw(rt, "n")
+			do(cs.Op{Kind: "createcoll", Coll: "src"})
+			if rapid.Bool().Draw(rt, "indexed") {
+				do(cs.Op{Kind: "createindex", Coll: "src", Field: "x"})
+			}
+			do(cs.Op{Kind: "geninsert", Coll: "src", Gen: &cs.GenSpec{First: 0, N: n, Mul: 3, Add: 1, Mod: 50}})
+			do(cs.Op{Kind: "export", Coll: "src", Path: "big.json"})
+			do(cs.Op{Kind: "dropcoll", Coll: "src"})
+			do(cs.Op{Kind: "import", Coll: "src", Path: "big.json", Note: "fromexport"})
+			do(cs.Op{Kind: "import", Coll: "dst", Path: "big.json", Note: "fromexport"})
+			do(cs.Op{Kind: "count", Q: &cs.Query{Coll: "src"}})
+			do(cs.Op{Kind: "close"})
+			col.Case(true, hashOf(n, backend), func() interface{} {
+				return map[string]interface{}{"mode": "big round trip", "documents": n, "backend": backend}
+			}, "big-roundtrip", "backend:"+backend)
+		})
+	})
 }
 
 func testC19Histories(t *testing.T) {
